@@ -8,8 +8,9 @@ CHECKS = {
     'C06': dict(
         text='Seeded exploration: thousands of simulated top-level sift calls per run over variant x option grid x '
              'delivery route x pool schedule; the history of stage entries (including those inside simulated worker '
-             'processes, after a real pickle round trip) is checked against the options the caller supplied. A clean '
-             'batch is evidence, not proof.',
+             'processes, after a real pickle round trip) is checked against the options the caller supplied; inside the stages the '
+             'np.pad / interpolator / stop-rule calls must be the ones the options select, and a sample of recorded '
+             'single-IMF extractions is recomputed by a reference pipeline. A clean batch is evidence, not proof.',
         note='Trusted: the SimPool process model (validated against the real pool by the fidelity self-test), '
              'inspect.signature binding of stage calls, stage functions being reached through their emd.sift module '
              'names.',
@@ -38,7 +39,7 @@ CHECKS = {
         text='Seeded stateful simulation: random operation histories (metrics in both modes, additions, timings, '
              'subset picks with all comparators and literal forms, chain timings, table exports) with injected '
              'callback failures are applied to a cache-on and a cache-off container and to a small reference model; '
-             'all three are compared after every operation.',
+             'all three are compared after every operation, and every earlier query is re-asked after every step.',
         note='Trusted: the container\'s own cycle vector as the definition of a cycle\'s samples; pandas for the table '
              'comparison.',
         technique='deterministic simulation (seeded operation histories + callback-fault injection vs reference model, cache on/off lockstep)',
